@@ -146,7 +146,7 @@ def r3(ctx, rep):
             allowed = set(ALLOWED_MUTATION_SITES)
             for (amod, aqn) in list(ALLOWED_MUTATION_SITES):
                 if '.' in aqn:
-                    allowed |= {(amod, q) for q in astq.helper_closure(m, amod, aqn.rsplit('.', 1)[0], {aqn})}
+                    allowed |= {(amod, q) for q in astq.helper_closure(m, amod, aqn.rsplit('.', 1)[0], {q_ for mo_, q_ in ALLOWED_MUTATION_SITES if mo_ == amod})}
         for c in astq.calls(fn, nested=False):
             f = c.func
             if isinstance(f, ast.Attribute) and f.attr in BRANCH_MUTATORS and is_branch_receiver(astq.u(f.value)):
